@@ -40,6 +40,8 @@ pub enum EOp {
 
 pub struct Case {
     pub start: Option<(RelField, String, Layout)>,
+    /// the start text has white space in front of ':archqual' (accepted by the reader, not part of the stated grammar)
+    pub liberal: bool,
     pub ops: Vec<EOp>,
 }
 
@@ -239,6 +241,13 @@ pub fn run(case: &Case) -> CheckResult {
         None => (ll::Relations::new(), vec![], vec![]),
         Some((f, text, _)) => {
             let (r, errs) = ll::Relations::parse_relaxed(text, true);
+            if case.liberal {
+                // white space in front of an architecture qualifier is outside the stated grammar; the reader happens to
+                // accept it. Where it does not (or reads something else), the case does not apply.
+                if !errs.is_empty() || !lossless_entries(&r).map(|e| same_entries(&e, &f.entries())).unwrap_or(false) {
+                    return Ok(());
+                }
+            }
             ensure!(errs.is_empty(), "start-parses", "well-formed start field {:?} has errors {:?}", text, errs);
             (r, f.entries(), f.substvars())
         }
@@ -414,7 +423,7 @@ impl PropImpl for C11 {
          an empty entry/substvar/newline. Distinct by hash of (start text, history).".into()
     }
     fn expected_labels(&self) -> Vec<&'static str> {
-        vec!["op:push", "op:insert", "op:replace", "op:remove_entry", "op:Entry::remove", "op:Entry::push", "op:Entry::replace", "op:Entry::remove_relation", "op:Relation::remove", "op:set_version(Some)", "op:set_version(None)", "op:drop_constraint", "op:set_archqual", "op:set_architectures", "op:add_profile", "operand:parsed", "operand:constructed", "operand:builder", "operand:parsed-with-surrounding-whitespace", "start:empty-field", "start:has-substvar", "start:has-empty-entry", "start:has-newline"]
+        vec!["op:push", "op:insert", "op:replace", "op:remove_entry", "op:Entry::remove", "op:Entry::push", "op:Entry::replace", "op:Entry::remove_relation", "op:Relation::remove", "op:set_version(Some)", "op:set_version(None)", "op:drop_constraint", "op:set_archqual", "op:set_architectures", "op:add_profile", "operand:parsed", "operand:constructed", "operand:builder", "operand:parsed-with-surrounding-whitespace", "start:empty-field", "start:has-substvar", "start:has-empty-entry", "start:has-newline", "start:white-space-before-archqual"]
     }
     fn budget(&self, tier: Tier) -> Budget {
         Budget { cases_per_lane: if tier == Tier::Quick { 30000 } else { 120000 }, tape_max: 600, cpu_s: 10 }
@@ -446,7 +455,7 @@ impl PropImpl for C11 {
             apply_model(&mut m, &avail[k]);
             ops.push(avail[k].clone());
         }
-        Case { start: if li == 0 { None } else { Some((f, text.to_string(), Layout::L1)) }, ops }
+        Case { start: if li == 0 { None } else { Some((f, text.to_string(), Layout::L1)) }, ops, liberal: false }
     }
     fn decode(&self, _ctx: &mut Ctx, t: &mut Tape) -> Case {
         let start = if t.chance(1, 5) {
@@ -455,6 +464,31 @@ impl PropImpl for C11 {
             let o = RelOpts { max_layout: Layout::L3, max_items: 4, ..Default::default() };
             Some(rel::gen_field(t, &o))
         };
+        let mut liberal = false;
+        let start = match start {
+            Some((f, text, l)) if t.chance(1, 6) => {
+                // put a blank (or a line break and a blank) in front of every top-level ':' (architecture qualifiers)
+                let mut out = String::new();
+                let (mut paren, mut brace) = (0, 0);
+                let ws = if t.flag() { " " } else { "\n " };
+                for c in text.chars() {
+                    match c {
+                        '(' => paren += 1,
+                        ')' => paren -= 1,
+                        '{' => brace += 1,
+                        '}' => brace -= 1,
+                        ':' if paren == 0 && brace == 0 => {
+                            out.push_str(ws);
+                            liberal = true;
+                        }
+                        _ => {}
+                    }
+                    out.push(c);
+                }
+                Some((f, out, l))
+            }
+            s => s,
+        };
         let mut m = start.as_ref().map(|s| s.0.entries()).unwrap_or_default();
         let mut ops = vec![];
         while t.more(ops.len(), 1, 10, 3, 4) {
@@ -462,7 +496,7 @@ impl PropImpl for C11 {
             apply_model(&mut m, &op);
             ops.push(op);
         }
-        Case { start, ops }
+        Case { start, ops, liberal }
     }
     fn classify(&self, ctx: &mut Ctx, case: &Case) {
         let st = case.start.as_ref().map(|s| s.1.clone()).unwrap_or_default();
@@ -472,6 +506,7 @@ impl PropImpl for C11 {
         ctx.label_if(f.has_substvar(), "start:has-substvar");
         ctx.label_if(f.has_empty(), "start:has-empty-entry");
         ctx.label_if(st.contains('\n'), "start:has-newline");
+        ctx.label_if(case.liberal, "start:white-space-before-archqual");
         let mut m = f.entries();
         let mut changing = 0;
         let mut edge = false;
